@@ -357,6 +357,7 @@ func (s *stdSvc) runRequestJournal(test string, rc relayCase, desc func(mOutcome
 	if desc != nil {
 		V.Journal(test, desc(res.Exp))
 	}
+	s.in.expect(rc.Msg.Bytes())
 	if err := send(rc.Msg.Bytes()); err != nil {
 		return nil, err
 	}
